@@ -1,5 +1,5 @@
 \* trace validation on core N
-CONSTANTS NL = 9  NA0 = 7  NF = 4  MB = 4  MaxCascade = 4  MaxLevel = 999  ReAdd = TRUE
+CONSTANTS NL = 9  NA0 = 7  NP0 = 2  NF = 4  MB = 4  MaxCascade = 4  MaxLevel = 999  ReAdd = TRUE
 CONSTANTS Layout <- LayoutN  Place <- PlaceN  SFlagSets <- Unused  TrackSet <- Unused
 SPECIFICATION TSpec
 CONSTRAINT Progress
